@@ -59,9 +59,50 @@ func c19Tokens(n *canon.Node, out *[]string) {
 			c19Tokens(canon.KeyNode(k), out)
 		}
 		*out = append(*out, "}")
+	case canon.Str:
+		// strings holding a line break are written as raw strings (real CR/LF characters inside the token)
+		if strings.Contains(n.S, "\n") && !strings.Contains(n.S, "¬") {
+			*out = append(*out, "¬"+n.S+"¬")
+			return
+		}
+		*out = append(*out, canon.Render(n))
 	default:
 		*out = append(*out, canon.Render(n))
 	}
+}
+
+// c19SameEvent compares two trace events; error objects are compared by their message text as well (the text a
+// program obtains from a caught error must not depend on the route).
+func c19SameEvent(a, b *canon.Node) bool {
+	if !c12SameModuloGensym(a, b) {
+		return false
+	}
+	return c19ErrTexts(a) == c19ErrTexts(b)
+}
+
+func c19ErrTexts(n *canon.Node) string {
+	var sb strings.Builder
+	var walk func(x *canon.Node)
+	walk = func(x *canon.Node) {
+		if x.K == canon.Opaque && x.S == "error" {
+			if e, ok := x.X.(error); ok {
+				sb.WriteString(e.Error() + "|")
+			}
+		}
+		for _, e := range x.L {
+			walk(e)
+		}
+		keys := make([]string, 0, len(x.M))
+		for k := range x.M {
+			keys = append(keys, k)
+		}
+		sort.Strings(keys)
+		for _, k := range keys {
+			walk(x.M[k])
+		}
+	}
+	walk(n)
+	return sb.String()
 }
 
 type c19Layout struct {
@@ -153,7 +194,7 @@ func c19Compare(c *fw.Ctx, ref, x c19Result, layout string, input string) bool {
 		return false
 	}
 	for i := range x.trace {
-		if !c12SameModuloGensym(x.trace[i], ref.trace[i]) {
+		if !c19SameEvent(x.trace[i], ref.trace[i]) {
 			c.Violate(fw.Violation{Key: "trace:" + key, What: fmt.Sprintf("trace event %d: route %s %s, route %s %s", i, ref.route, canon.Render(ref.trace[i]), x.route, canon.Render(x.trace[i])), Input: input})
 			return false
 		}
@@ -200,6 +241,25 @@ func runC19(c *fw.Ctx) {
 		// the program's value is observed through a final trace! on every route
 		last := forms[len(forms)-1]
 		forms[len(forms)-1] = canon.Li(canon.Sy("trace!"), last)
+		// route-sensitive material: caught error objects of several kinds (their text is observable by the program),
+		// and a string with CR LF line breaks inside (written as a multi-line raw string)
+		sy, li := canon.Sy, canon.Li
+		catchTrace := func(body *canon.Node) *canon.Node {
+			return li(sy("try"), body, li(sy("catch"), sy("err"), li(sy("trace!"), li(sy("list"), sy("err"), li(sy("str"), sy("err"))))))
+		}
+		extras := []*canon.Node{
+			li(sy("def"), sy("two-params"), li(sy("fn"), li(sy("p"), sy("q")), sy("p"))),
+			catchTrace(li(sy("two-params"), canon.In(1))),
+			catchTrace(li(sy("two-params"), canon.In(1), canon.In(2), canon.In(3))),
+			catchTrace(sy("no-such-symbol")),
+			catchTrace(li(sy("nth"), canon.Ve(), canon.In(3))),
+			catchTrace(li(canon.In(1), canon.In(2))),
+			li(sy("trace!"), li(sy("list"), li(sy("count"), li(sy("seq"), canon.St("line one\r\nline two\r\n"))), canon.St("a\r\nb"))),
+		}
+		if r.Intn(3) == 0 {
+			extras = extras[:1+r.Intn(len(extras))]
+		}
+		forms = append(forms[:len(forms)-1], append(extras, forms[len(forms)-1])...)
 		ls := []c19Layout{layouts[0], layouts[1+lr.Intn(len(layouts)-1)], layouts[1+lr.Intn(len(layouts)-1)], layouts[1+lr.Intn(len(layouts)-1)]}
 		doForm := canon.Li(append([]*canon.Node{canon.Sy("do")}, forms...)...)
 		c.Case(fmt.Sprintf("prog-%d", i), progText(forms), func() {
